@@ -212,11 +212,11 @@ const KNOWN_FAULT_KINDS: &[&str] = &["schema-eof-unclosed", "op-eof-unclosed", "
 
 struct Built { proj: Project, docs: Vec<g::Doc>, schema: g::Schema }
 
-fn base_project(rng: &mut Rng, idx: usize, thorough: bool) -> Built {
+fn base_project(rng: &mut Rng, idx: usize, thorough: bool, at_least_two: bool) -> Built {
     let with_desc = rng.chance(1, 2);
     let schema = g::gen_schema(rng, &g::SchemaCfg { descriptions: with_desc, custom_directives: true });
     // split the schema over 1–3 files
-    let nf = rng.range(1, 3);
+    let nf = rng.range(if at_least_two { 2 } else { 1 }, 3);
     let mut sets: Vec<BTreeSet<usize>> = vec![BTreeSet::new(); nf];
     sets[0].insert(usize::MAX);
     // every file gets at least one definition (a file with comments only is not a GraphQL document)
@@ -229,7 +229,7 @@ fn base_project(rng: &mut Rng, idx: usize, thorough: bool) -> Built {
         schema_files.push((names[k].to_string(), text));
     }
     // operation files
-    let nd = rng.range(1, if thorough { 4 } else { 3 });
+    let nd = rng.range(if at_least_two { 2 } else { 1 }, if thorough { 4 } else { 3 });
     let mut docs = vec![];
     for _ in 0..nd {
         let cfg = g::DocCfg { max_depth: 3, shorthand: rng.chance(1, 4), ..Default::default() };
@@ -284,11 +284,10 @@ fn line_starts_matching(text: &str, pred: impl Fn(&str) -> bool) -> Vec<usize> {
 }
 
 /// injects one fault; returns false when the kind is not applicable to this project
-fn inject(rng: &mut Rng, root: &Path, b: &mut Built, kind: &str, prefix: &mut Vec<Vec<String>>, suffix: &mut Vec<String>, serial: usize) -> bool {
+fn inject(rng: &mut Rng, root: &Path, b: &mut Built, kind: &str, prefix: &mut Vec<Vec<String>>, suffix: &mut Vec<String>, serial: usize, force: Option<usize>) -> bool {
     let ns = b.proj.schema_files.len();
     let nd = b.docs.len();
-    let sj = rng.below(ns);
-    let dj = rng.below(nd);
+    let (sj, dj) = match force { Some(i) => (i % ns, i % nd), None => (rng.below(ns), rng.below(nd)) };
     let sfile = abs(root, &b.proj.schema_files[sj].0);
     let dfile = abs(root, &format!("ops/q{dj}.graphql"));
     let mut f = Fault { kind: kind.to_string(), stage: 0, files: vec![], known: vec![], via: None };
@@ -347,16 +346,16 @@ fn inject(rng: &mut Rng, root: &Path, b: &mut Built, kind: &str, prefix: &mut Ve
             f.stage = 3; f.files = vec![sfile];
         }
         "op-unknown-field" => {
-            if b.docs[dj].ops.is_empty() { return false; }
-            let k = rng.below(b.docs[dj].ops.len());
-            if b.docs[dj].ops[k].kind == "subscription" { return false; }
+            let cands: Vec<usize> = (0..b.docs[dj].ops.len()).filter(|k| b.docs[dj].ops[*k].kind != "subscription").collect();
+            if cands.is_empty() { return false; }
+            let k = *rng.pick(&cands);
             b.docs[dj].ops[k].sel.push(g::Sel::Field { alias: None, name: format!("zzUnknown{serial}"), args: vec![], dirs: vec![], sub: None });
             f.stage = 7; f.files = vec![dfile];
         }
         "op-unknown-fragment" => {
-            if b.docs[dj].ops.is_empty() { return false; }
-            let k = rng.below(b.docs[dj].ops.len());
-            if b.docs[dj].ops[k].kind == "subscription" { return false; }
+            let cands: Vec<usize> = (0..b.docs[dj].ops.len()).filter(|k| b.docs[dj].ops[*k].kind != "subscription").collect();
+            if cands.is_empty() { return false; }
+            let k = *rng.pick(&cands);
             b.docs[dj].ops[k].sel.push(g::Sel::Spread { name: format!("MissingFragment{serial}"), dirs: vec![] });
             f.stage = 7; f.files = vec![dfile];
         }
@@ -584,7 +583,7 @@ fn main() {
     let scratch = fs::canonicalize(&scratch).expect("scratch dir must exist");
     assert!(!scratch.starts_with("/repo") && !scratch.starts_with("/verif"), "scratch directory must be outside /repo and /verif");
     let mut rng = Rng::new(args.seed);
-    let n_projects = if thorough { 500 } else { 36 };
+    let n_projects = if thorough { 500 } else { 45 };
     let mut outs: Vec<CaseOut> = vec![];
     let mut stats: BTreeMap<String, u64> = BTreeMap::new();
     let mut bump = |k: &str, n: u64| { *stats.entry(k.to_string()).or_insert(0) += n; };
@@ -595,23 +594,32 @@ fn main() {
 
     for idx in 0..n_projects {
         let root = scratch.join(format!("p{idx}"));
-        let mut b = base_project(&mut rng, idx, thorough);
-        let nd = b.docs.len();
-        let mut prefix: Vec<Vec<String>> = vec![vec![]; nd];
-        let mut suffix: Vec<String> = vec![String::new(); nd];
-        // which faults: the first projects walk through the kinds one by one, then random mixes
-        let mut kinds: Vec<&str> = vec![];
+        // which faults: the first faulty projects walk through the kinds one by one, then pairs of faults of one
+        // stage in two different files ("every offending file, not only the first"), then random mixes
         let plan_kinds: Vec<&str> = FAULT_KINDS.iter().chain(KNOWN_FAULT_KINDS.iter()).copied().collect();
+        const PAIRS: &[(&str, &str)] = &[("op-unknown-field", "op-unknown-fragment"), ("schema-unknown-type", "schema-unknown-type"),
+            ("op-import-missing-file", "op-import-missing-file"), ("op-stray-brace", "op-bad-char"), ("op-wildcard-twice", "op-wildcard-twice"),
+            ("op-unknown-field", "op-unknown-field")];
+        let mut kinds: Vec<(&str, Option<usize>)> = vec![];
+        let mut pair = false;
         if idx % 3 == 0 { /* no fault */ }
         else {
             let j = (idx / 3) * 2 + (idx % 3) - 1;     // 0, 1, 2, … over the faulty projects
             if j < plan_kinds.len() {
-                kinds.push(plan_kinds[j]);
-                if !KNOWN_FAULT_KINDS.contains(&plan_kinds[j]) && rng.chance(1, 3) { kinds.push(*rng.pick(FAULT_KINDS)); }
-            } else if rng.chance(1, 12) { kinds.push(*rng.pick(KNOWN_FAULT_KINDS)); }
-            else { let k = rng.range(1, if thorough { 4 } else { 2 }); for _ in 0..k { kinds.push(*rng.pick(FAULT_KINDS)); } }
+                kinds.push((plan_kinds[j], None));
+                if !KNOWN_FAULT_KINDS.contains(&plan_kinds[j]) && rng.chance(1, 3) { kinds.push((*rng.pick(FAULT_KINDS), None)); }
+            } else if j < plan_kinds.len() + PAIRS.len() {
+                let (a, c) = PAIRS[j - plan_kinds.len()];
+                kinds.push((a, Some(0))); kinds.push((c, Some(1))); pair = true;
+            } else if rng.chance(1, 12) { kinds.push((*rng.pick(KNOWN_FAULT_KINDS), None)); }
+            else if rng.chance(1, 4) { let (a, c) = *rng.pick(PAIRS); kinds.push((a, Some(0))); kinds.push((c, Some(1))); pair = true; }
+            else { let k = rng.range(1, if thorough { 4 } else { 2 }); for _ in 0..k { kinds.push((*rng.pick(FAULT_KINDS), None)); } }
         }
-        for k in kinds { serial += 1; if inject(&mut rng, &root, &mut b, k, &mut prefix, &mut suffix, serial) { bump(&format!("fault_{k}"), 1); } }
+        let mut b = base_project(&mut rng, idx, thorough, pair);
+        let nd = b.docs.len();
+        let mut prefix: Vec<Vec<String>> = vec![vec![]; nd];
+        let mut suffix: Vec<String> = vec![String::new(); nd];
+        for (k, force) in kinds { serial += 1; if inject(&mut rng, &root, &mut b, k, &mut prefix, &mut suffix, serial, force) { bump(&format!("fault_{k}"), 1); } }
         // resolving the imports of a file descends into the imported file first: an import fault there is what gets
         // reported for the importing file too (positioned in the imported file)
         let stage6: Vec<String> = b.proj.faults.iter().filter(|f| f.stage == 6).flat_map(|f| f.files.first().cloned()).collect();
